@@ -275,6 +275,7 @@ func runFanoutHistory(cfgTok, evTok string) string {
 	var msgs []pubMsg
 	var tsBlobs, patBlobs, sdpBlobs [][]byte
 	pushAttached := false
+	wantOpened := 0
 	var pushSegments [][]base.RtmpMsg // one per input epoch
 
 	waitUntil := func(cond func() bool) bool {
@@ -344,6 +345,16 @@ func runFanoutHistory(cfgTok, evTok string) string {
 			if target != nil {
 				if !waitUntil(func() bool { return group.VerifPushSessionCount() == 1 }) {
 					return "err-push-not-attached"
+				}
+				// ... and until the stub origin has registered the session: the client side is
+				// attached as soon as it got the publish status, the origin's callback may come later
+				wantOpened++
+				if !waitUntil(func() bool {
+					target.mu.Lock()
+					defer target.mu.Unlock()
+					return target.opened >= wantOpened
+				}) {
+					return "err-push-not-seen-by-target"
 				}
 				pushAttached = true
 			}
@@ -646,8 +657,13 @@ func runFanoutHistory(cfgTok, evTok string) string {
 }
 
 func init() {
-	httpts.SubSessionWriteChanSize = 0
-	register("c01.hist", func(a []string) string { return runFanoutHistory(a[0], a[1]) })
+	register("c01.hist", func(a []string) string {
+		// synchronous writes for the HTTP subscribers of this history only
+		oldTs, oldFlv := httpts.SubSessionWriteChanSize, httpflv.SubSessionWriteChanSize
+		httpts.SubSessionWriteChanSize, httpflv.SubSessionWriteChanSize = 0, 0
+		defer func() { httpts.SubSessionWriteChanSize, httpflv.SubSessionWriteChanSize = oldTs, oldFlv }()
+		return runFanoutHistory(a[0], a[1])
+	})
 	// the per-message conversions every consumer shares
 	register("c01.conv", func(a []string) string {
 		p := bytesTok(a[2])
